@@ -593,7 +593,7 @@ def run_p(case):
             if any(bind_flag(c, src) == "d" for c in sconts.values()):
                 srcflag = "d"
             eff = d["copy"] or {"clone-ref": "ref", "clone-shallow": "shallow", "clone-deep": "deep",
-                                "deepcopy": "ref", "copy": "copy", "pickle": "pickle"}[last_sig]
+                                "deepcopy": "deep", "copy": "copy", "pickle": "pickle"}[last_sig]
             if d["transient"]:
                 dv = d["default"]
                 if d["kind"] == "r":
